@@ -79,6 +79,16 @@ func randGraph(r *rng, st stats, negOK bool, dag bool) (n int, edges []edge) {
 			}
 		}
 	}
+	if !negOK && len(edges) > 0 && r.chance(8) {
+		// one very heavy edge: true distances reach 2^62 without any sum
+		// leaving the int range (still inside the domain of theorem C18)
+		for i := range edges {
+			if edges[i].w > 1000 {
+				edges[i].w = 3
+			}
+		}
+		edges[r.intn(len(edges))].w = 4611686018427388004
+	}
 	return
 }
 
@@ -146,6 +156,17 @@ func genDijk(neg bool) func(r *rng, idx int, st stats) caseOut {
 				ds = append(ds, fmt.Sprintf("(%s,%s)", z(v), z(dist[v])))
 				ps = append(ps, fmt.Sprintf("(%s,%s)", z(v), z(vkey(prev[v]))))
 				var path []am.VerifVertex
+				// a cyclic predecessor chain would make EdgeToPath loop forever:
+				// detect it with a bounded walk and report it as path [-3]
+				cur, steps := am.VerifVertex(g.Vertex(v)), 0
+				for cur != nil && steps <= n+1 {
+					cur = prev[am.VerifVertexID(cur)]
+					steps++
+				}
+				if steps > n+1 {
+					paths = append(paths, "[(-3)]")
+					continue
+				}
 				pp, _ := withRecover(func() { path = g.EdgeToPath(g.Vertex(v), prev) })
 				if pp {
 					paths = append(paths, "[(-2)]")
